@@ -26,7 +26,21 @@ Case(f, cn, g, s, qs) ==
                !.pos = [i \in 1..Len(F.q) |-> Shift(s, F.pos[i])],
                !.q = [i \in 1..Len(F.q) |-> IF qs = "neg" THEN -F.q[i] - 64 ELSE F.q[i]]]
 
-Init == \E f \in FragNames, cn \in CellNames, g \in {"zero", "contig", "gaps", "high"}, s \in {"in", "neg", "far"}, qs \in {"pos", "neg"},
+\* twelve atoms, each of its own type, chained by eleven bonds each of its own type: type ids with two digits
+Many(style) ==
+  LET n == 12
+      els == <<"C","N","O","H","F","C","N","O","H","F","C","N">>
+  IN [K |-> [ty |-> [i \in 1..n |-> i - 1], q |-> [i \in 1..n |-> i], grp |-> [i \in 1..n |-> i % 3], pos |-> [i \in 1..n |-> <<i, 2 * i, 1>>],
+             xa |-> [i \in 1..n |-> <<>>], xal |-> <<>>, tel |-> els, tmass |-> [i \in 1..n |-> MassOf(els[i])],
+             tlab |-> [i \in 1..n |-> "M.a" \o ToString(i - 1)], tpc |-> [i \in 1..n |-> "lj/cut 0." \o ToString(i) \o " 3.0 # M.p" \o ToString(i - 1)],
+             bond |-> [ix |-> [m \in 1..(n - 1) |-> <<m - 1, m>>], ty |-> [m \in 1..(n - 1) |-> m - 1],
+                       co |-> [m \in 1..(n - 1) |-> "harmonic " \o ToString(m) \o ".5 # M.b" \o ToString(m - 1)],
+                       xf |-> [m \in 1..(n - 1) |-> <<>>], xl |-> <<>>],
+             angle |-> NoTerms, dihedral |-> NoTerms, improper |-> NoTerms, cell |-> LCell("tri")],
+      style |-> style, name |-> <<"many-types", "tri", "contig", "in", "pos">>]
+
+Init == \/ \E st \in {"full", "atomic"} : c = Many(st)
+        \/ \E f \in FragNames, cn \in CellNames, g \in {"zero", "contig", "gaps", "high"}, s \in {"in", "neg", "far"}, qs \in {"pos", "neg"},
            st \in {"full", "atomic"} :
           c = [K |-> Case(f, cn, g, s, qs), style |-> st, name |-> <<f, cn, g, s, qs>>]
 Next == UNCHANGED c
